@@ -115,6 +115,16 @@ func (p *polling) onPollRequest(ctx *types.HttpContext) {
 
 	ctx.Once("close", onClose)
 
+	// the client may have gone before the listener above existed (the request
+	// was verified first): its close event went to nobody, and whatever is
+	// written to this request reaches nobody. It ends like any poll that is
+	// closed prematurely.
+	if ctx.IsDone() {
+		ctx.RemoveListener("close", onClose)
+		onClose()
+		return
+	}
+
 	p.SetWritable(true)
 	p.Emit("ready")
 
